@@ -197,7 +197,7 @@ def gen_sizes(tier, seed):
 
 def suites(tier, seed):
     return [
-        Suite("violations-random", "machine", lambda: gen_random(tier, seed), monitor=monitor, nontrivial=nontrivial,
+        Suite("violations-random", "machine", lambda: gen_random(tier, seed), monitor=monitor, nontrivial=nontrivial, canon=mg.canon_nondet, candidate_ok=mg.candidate_ok,
               rule="random sessions (1-6 channels, consumers, deliveries, gets, returns) with a high rate of protocol violations: content without method, second header, overrun, content method inside content, frames for closed / never opened channels, content on channel 0, unknown and duplicate tags, client-only / unimplemented / connection-class methods, unsolicited replies; frames reach the client directly or through the stream + frame buffer"),
         Suite("violations-exhaustive", "machine", lambda: gen_exhaustive(tier, seed), monitor=monitor, nontrivial=nontrivial, exhaustive=(tier != "quick"),
               rule="sequences of length %d over a 29-shape alphabet covering every arm of the dispatch, on channel {open, 0, never opened}, from 4 collector states (idle / consumer / content method seen / body half received); %s" % (
